@@ -33,6 +33,8 @@ def run(shard, rec, B):
 
 
 def roundtrip(rec, B, sub, thing, item, desc, nt, layer_N=None):
+    if sub.startswith(("CliffordCircuit.copy_", "Circuit.copy_")):
+        pass
     """both orders on one input; `thing` has forward/backward."""
     for order in ("bf", "fb"):
         obj = CC.clone_input(B, item)
@@ -92,6 +94,10 @@ def run_progs(shard, rec, B):
                 kind = {"genq": "gen", "setgen": "gen", "C": "named"}.get(s["kind"], s["kind"])
                 item = ins[int(rng.integers(len(ins)))]
                 roundtrip(rec, B, "gate.%s" % kind, g, item, {"gate": PR.describe(s), "N": N, "compiled": compiled}, nt)
+                # the used gate (derived maps cached by now) is copied and the copy must round-trip too
+                ok, g2 = rec.attempt("gate.copy_after_use", PR.describe(s), lambda: g.copy())
+                if ok:
+                    roundtrip(rec, B, "gate.copy_after_use", g2, item, {"gate": PR.describe(s), "N": N, "compiled": compiled}, nt)
         # a layer built directly from pairwise disjoint gates
         used, lay = set(), []
         for s in prog:
@@ -107,6 +113,10 @@ def run_progs(shard, rec, B):
             for item in ins[:3]:
                 roundtrip(rec, B, "layer.%s" % ("compiled" if compiled else "plain"), L, item,
                           {"N": N, "layer": [PR.describe(s) for s in lay]}, nt)
+            ok, L2 = rec.attempt("layer.copy_after_use", desc, lambda: L.copy())
+            if ok:
+                L2.forward_map = L2.backward_map = None   # use the copied gates themselves
+                roundtrip(rec, B, "layer.copy_after_use", L2, ins[0], {"N": N, "layer": [PR.describe(s) for s in lay]}, nt)
         # circuits in all configurations
         for cls in classes:
             for variant in CC.VARIANTS:
@@ -118,3 +128,14 @@ def run_progs(shard, rec, B):
                     circ = res[0]
                     for item in ins:
                         roundtrip(rec, B, sub, circ, item, dict(desc, config=sub), nt)
+                    # a copy taken AFTER the circuit has been used (gates may have cached derived maps by now) and,
+                    # for compiled ones, a copy that is compiled again from its own gates
+                    if variant == "built" and hasattr(circ, "copy"):
+                        ok, c2 = rec.attempt("cfg.copy_after_use", desc, lambda: circ.copy())
+                        if ok:
+                            for item in ins[:3]:
+                                roundtrip(rec, B, "%s.copy_after_use.%s" % (cls, comp), c2, item, dict(desc, config=sub), nt)
+                            ok, _ = rec.attempt("cfg.copy_recompiled", desc, (lambda: c2.compile(N)) if cls == "CliffordCircuit" else (lambda: c2.compile()))
+                            if ok:
+                                for item in ins[:3]:
+                                    roundtrip(rec, B, "%s.copy_recompiled.%s" % (cls, comp), c2, item, dict(desc, config=sub), nt)
